@@ -78,6 +78,26 @@ func c11Scenarios(tier string) []*explore.Scenario {
 			}
 		}
 	}
+	// "Sharing one PreparedMessage ... among many connections is likewise race-free": the
+	// concurrent-send harness of C19 and the shared-pool harness of C20, both flavours
+	for _, flavour := range []string{"sched", "race"} {
+		if flavour == "race" && os.Getenv("VERIF_NO_RACE") != "" {
+			continue
+		}
+		b := 2
+		if tier == "thorough" {
+			b = 3
+		}
+		if flavour == "race" {
+			b--
+		}
+		for _, mix := range []string{"same-kind", "two-same-one-other", "all-different"} {
+			flavour, mix := flavour, mix
+			scs = append(scs, &explore.Scenario{Name: fmt.Sprintf("c11/%s/shared-prepared/%s", flavour, mix), Bound: b, Flavour: flavour, Body: func(x *explore.Ctx) { c19Conc(x, mix, 5) }})
+		}
+		flavour := flavour
+		scs = append(scs, &explore.Scenario{Name: fmt.Sprintf("c11/%s/shared-pool", flavour), Bound: b, Flavour: flavour, Body: func(x *explore.Ctx) { c20Share(x, 2, false) }})
+	}
 	return scs
 }
 
